@@ -3077,9 +3077,12 @@ func (r *stack) implode(start, max int, spat []int) (tpat []int) {
 }
 
 func (r *stack) canPushNester(x any) (can bool) {
-	_, can = stackTypeAliasConverter(x)
-	if !r.positive(nnest) {
-		can = true
+	can = true
+	if r.positive(nnest) {
+		// no-nesting is in force: anything that
+		// is (or converts to) a Stack is refused.
+		_, isStack := stackTypeAliasConverter(x)
+		can = !isStack
 	}
 	return
 }
